@@ -104,10 +104,20 @@ pub fn run(args: &[String]) -> i32 {
     let mut samples: Vec<String> = vec![];
     let mut idx = 0;
     whole_file_cases(&mut shards, &mut stats);
+    // minimised past failures run first: (patterns, file, blocks, context size)
+    let mut corpus: Vec<(Vec<usize>, Vec<u8>, Vec<(usize, usize)>, usize)> = vec![
+        // a greedy regexp cut by the edge of the first of two overlapping blocks: the later block extends the match
+        (vec![9], b"ghijklmnopqrstux01234yz ghijklmnopqr".to_vec(), vec![(0, 20), (9, 27)], 0),
+        (vec![9], b"ghijklmnopqrstux01234yz ghijklmnopqr".to_vec(), vec![(9, 27), (0, 20)], 0),
+        (vec![9, 0], b"ghijklmnopqrstux01234yz abc ghijklmn".to_vec(), vec![(0, 20), (9, 27)], 16),
+        // thorough seed 1 #912: Match::data() panics (unwrap on None) after overlapping blocks
+        (vec![9, 8, 2], b" _op s.q js sjpzx01234ivjk.prqkyizpzp iyumm. g tgj_hritgrty_qrtyt hthvksvlmjkmvjy gqhynmiz ngoo.nsz_  ihk.v vuutaaabyt.m _kio.hhsklh_h tvztjh.jqlrmyyl pjgrlhku_x01".to_vec(), vec![(0, 20), (9, 119), (128, 3), (139, 24), (34, 0)], 16),
+    ];
     while shards.total < n {
         idx += 1;
+        let forced = if corpus.is_empty() { None } else { Some(corpus.remove(0)) };
         // patterns of this case
-        let np = 2 + rng.below(4) as usize;
+        let mut np = 2 + rng.below(4) as usize;
         let mut chosen: Vec<usize> = vec![];
         while chosen.len() < np { let c = rng.below(POOL.len() as u64) as usize; if !chosen.contains(&c) { chosen.push(c); } }
         // the virtual file
@@ -121,6 +131,8 @@ pub fn run(args: &[String]) -> i32 {
             let at = if rng.chance(1, 8) { 0 } else if rng.chance(1, 8) { file.len() - inst.len() } else { rng.below((file.len() - inst.len()) as u64) as usize };
             file[at..at + inst.len()].copy_from_slice(&inst); inserted += 1;
         }
+        let mut flen = flen;
+        if let Some(f) = &forced { chosen = f.0.clone(); np = chosen.len(); file = f.1.clone(); flen = file.len(); }
         // rules: one plain rule per pattern + derived rules using at / in / #
         let mut src = String::new();
         for (i, p) in chosen.iter().enumerate() { src.push_str(&format!("rule p{} {{ strings: $p = {} condition: $p }}\n", i, POOL[*p].def)); }
@@ -156,8 +168,9 @@ pub fn run(args: &[String]) -> i32 {
         // no two different blocks at the same base (see above)
         { let mut seen: Vec<(usize, usize)> = vec![]; blocks.retain(|b| { if seen.iter().any(|s| s.0 == b.0 && s.1 != b.1) { false } else { seen.push(*b); true } }); }
         if rng.chance(1, 2) { for i in (1..blocks.len()).rev() { let j = rng.below(i as u64 + 1) as usize; blocks.swap(i, j); } stats.inc("shuffled"); }
-        let ctx = *rng.pick(&[0usize, 0, 3, 16]);
-        let used = rng.below(3);
+        let mut ctx = *rng.pick(&[0usize, 0, 3, 16]);
+        let mut used = rng.below(3);
+        if let Some(f) = &forced { blocks = f.2.clone(); ctx = f.3; used = 0; }
 
         // per-block reference
         let mut per_block: Vec<Vec<Vec<M>>> = vec![];
